@@ -178,7 +178,7 @@ def run_job(job, keep=True, trace=False):
     if job.unwind is not None:
         cb += ['--unwind', str(job.unwind), '--unwinding-assertions']
     if job.unwindset and not (job.route == 'harness' and job.loop_contracts):
-        cb += ['--unwindset', ','.join(job.unwindset), '--unwinding-assertions']
+        cb += ['--unwindset', ','.join(job.unwindset)] + ([] if job.unwind is not None else ['--unwinding-assertions'])
     if trace: cb += ['--trace']
     cb += [cur]
     r.cmds.append(' '.join(cb))
